@@ -312,6 +312,11 @@ fn run_impl(c: &Case) -> Obs {
         let g = fs.get_by_seq(*q);
         enc_opt(&mut out, g.map(ident_of));
         enc_opt(&mut out, fs.index_of_seq(*q).map(|i| i as u64));
+        if let Some(i) = fs.index_of_seq(*q) {
+            if fs.iter().nth(i).map(|e| e.seq) != Some(*q) {
+                fail = Some((format!("index_of_seq({q}) = {i}, the position of the frame with seq {:?}", fs.iter().nth(i).map(|e| e.seq)), "index_lookup_returns_other_frame".into()));
+            }
+        }
         if let Some(e) = g {
             if e.seq != *q {
                 fail = Some((format!("get_by_seq({q}) returned the frame with seq {}", e.seq), "lookup_returns_other_frame".into()));
@@ -1392,6 +1397,17 @@ fn main() {
         let tag_name = serde_json::to_value(&e1).unwrap()["type"].as_str().unwrap_or("").to_string();
         if ty != tag_name {
             res.oracle_violations.push(OracleViolation { case_id: cid, what: format!("event_type says {ty:?} for a frame whose type is {tag_name:?}"), class: "summary_wrong_type".into(), replay: js.clone() });
+        }
+        // the fourteen kinds that show one quoted value: the cut is after exactly 64 characters
+        let quoted: Option<&String> = match &kind {
+            EventKind::SessionStarted { input: v } | EventKind::OutputTextDelta { delta: v } | EventKind::SessionEnded { reason: v } | EventKind::ContinuityMessageAppended { content: v, .. } | EventKind::ToolStdout { chunk: v, .. } | EventKind::ToolStderr { chunk: v, .. } | EventKind::ToolFailed { error: v, .. } | EventKind::CheckpointCreated { label: v, .. } | EventKind::CheckpointRewound { label: v, .. } | EventKind::CheckpointFailed { error: v, .. } | EventKind::ToolTaskCancelRequested { reason: v, .. } | EventKind::ToolTaskCancelled { reason: v, .. } | EventKind::ToolTaskOutputDelta { chunk: v, .. } | EventKind::ToolTaskStdinWritten { chunk_b64: v, .. } => Some(v),
+            _ => None,
+        };
+        if let Some(v) = quoted {
+            let want = if v.chars().count() <= 64 { format!("{v:?}") } else { format!("{:?}", v.chars().take(64).collect::<String>() + "…") };
+            if su != want {
+                res.oracle_violations.push(OracleViolation { case_id: cid, what: format!("event_summary of a {}-character value is {su:?}, the 64-character cut gives {want:?}", v.chars().count()), class: "summary_wrong_cut".into(), replay: js.clone() });
+            }
         }
         if !summary_is_verbatim(&kind) && su.chars().count() > 652 {
             res.oracle_violations.push(OracleViolation { case_id: cid, what: format!("event_summary is {} characters long", su.chars().count()), class: "summary_unbounded".into(), replay: js.clone() });
